@@ -798,6 +798,18 @@ theorem lenCodec_stable : Stable lenCodec where
     simp only [lenCodec] at h ⊢
     simp [defaultEof, h]
 
+theorem lenxCodec_stable : Stable lenxCodec where
+  frame_ext := lenCodec_stable.frame_ext
+  err_ext := lenCodec_stable.err_ext
+  frame_shrinks := lenCodec_stable.frame_shrinks
+  err_shrinks := lenCodec_stable.err_shrinks
+  eof_frame b f r h := by
+    simp only [lenxCodec] at h ⊢
+    simp [lenxEof, h]
+  eof_err b k r h := by
+    simp only [lenxCodec] at h ⊢
+    simp [lenxEof, h]
+
 /-! ## `BytesCodec` (not stable by design): the items are a chunking of the stream -/
 
 /-- the bytes still to be delivered from state `s` -/
